@@ -176,6 +176,29 @@ func canonical() []*scenario {
 			{K: kSelect, C: 0, Dev: 3}, {K: kAlloc, C: 0, Size: 5 * P}, {K: kAlloc, C: 0, Size: 3 * P},
 			{K: kRemap, C: 0, Buf: 1, Off: 1, Size: 2 * P, Dev: 0}, {K: kRemap, C: 0, Buf: 0, Off: 0, Size: 3 * P, Dev: 3},
 			{K: kFree, C: 0, Buf: 1}, {K: kFree, C: 0, Buf: 0}, {K: kFree, C: 0, Buf: 2}, {K: kAlloc, C: 0, Size: P}}},
+		// ---- sibling contexts (InitWithExistingPID): buffers belong to the process
+		{Name: "canon-free-through-sibling-earlier-process-holds-same-vaddr", Log2Page: 12, GPUPages: []int{16}, Ops: []op{
+			{K: kInit, C: 0}, {K: kInit, C: 1}, {K: kInitPID, C: 2, From: 1}, // Q; P with contexts 1 and 2
+			{K: kAlloc, C: 0, Size: P}, {K: kAlloc, C: 1, Size: P}, // buffers 0 (Q) and 1 (P) start at the same virtual address
+			{K: kFree, C: 2, Buf: 1}, // P frees through its sibling context
+			{K: kAlloc, C: 2, Size: 2 * P}, {K: kAlloc, C: 0, Size: 2*P - 1}, // buffers 2 (P), 3 (Q): same start again
+			{K: kFree, C: 1, Buf: 2}, {K: kFree, C: 0, Buf: 0}, {K: kFree, C: 0, Buf: 3}, {K: kAlloc, C: 1, Size: P}}},
+		{Name: "canon-free-through-sibling-later-process-holds-same-vaddr", Log2Page: 14, GPUPages: []int{16, 16}, Ops: []op{
+			{K: kInit, C: 0}, {K: kInitPID, C: 1, From: 0}, {K: kInit, C: 2}, {K: kInitPID, C: 3, From: 2},
+			{K: kAlloc, C: 1, Size: 3 * 16384}, {K: kAlloc, C: 3, Size: 16384}, {K: kAlloc, C: 2, Size: 2 * 16384}, // 0 (P, via sibling), 1, 2 (Q)
+			{K: kFree, C: 0, Buf: 0}, // allocated through the sibling, freed through the first context
+			{K: kFree, C: 2, Buf: 1}, {K: kAlloc, C: 0, Size: 16384}, {K: kFree, C: 3, Buf: 2}, {K: kFree, C: 1, Buf: 3}}},
+		{Name: "canon-remap-distribute-migrate-free-through-siblings", Log2Page: 12, GPUPages: []int{32, 32, 32}, Ops: []op{
+			{K: kInit, C: 0}, {K: kInit, C: 1}, {K: kInitPID, C: 2, From: 1}, {K: kInitPID, C: 3, From: 1}, {K: kInitPID, C: 4, From: 0},
+			{K: kAlloc, C: 0, Size: 2 * P}, {K: kAlloc, C: 1, Size: 3 * P}, // 0 (Q), 1 (P): same start
+			{K: kAllocU, C: 4, Size: 2 * P}, {K: kAllocU, C: 2, Size: 3 * P}, // 2 (Q), 3 (P): same start
+			{K: kSelect, C: 3, Dev: 3}, {K: kAlloc, C: 3, Size: P}, // 4 (P) on GPU 3
+			{K: kRemap, C: 2, Buf: 1, Off: 1, Size: 2 * P, Dev: 2},
+			{K: kDist, C: 3, Buf: 1, Devs: []int{3, 2}},
+			{K: kMigrate, C: 1, Migs: []migPart{{Buf: 3, Page: 0, Dev: 2}, {Buf: 3, Page: 2, Dev: 3}}},
+			{K: kMigrate, C: 0, Migs: []migPart{{Buf: 2, Page: 1, Dev: 3}}},
+			{K: kFree, C: 3, Buf: 1}, {K: kFree, C: 1, Buf: 3}, {K: kFree, C: 2, Buf: 4},
+			{K: kFree, C: 0, Buf: 2}, {K: kFree, C: 4, Buf: 0}, {K: kAlloc, C: 2, Size: P}, {K: kAlloc, C: 4, Size: P}}},
 		// ---- page-migration preparation (fake MMU + command processors)
 		{Name: "canon-migrate-single-pages-back-and-forth", Log2Page: 12, GPUPages: []int{16, 16, 16}, Ops: []op{
 			{K: kInit, C: 0}, {K: kAllocU, C: 0, Size: 3 * P}, {K: kAlloc, C: 0, Size: 2 * P},
@@ -233,6 +256,11 @@ func canonical() []*scenario {
 		{Name: "canon-buddy-remap-block", Buddy: true, Log2Page: 12, GPUPages: []int{16, 16}, Ops: []op{
 			{K: kInit, C: 0}, {K: kAlloc, C: 0, Size: 3 * P}, {K: kRemap, C: 0, Buf: 0, Off: 0, Size: 3 * P, Dev: 2},
 			{K: kSelect, C: 0, Dev: 2}, {K: kAlloc, C: 0, Size: P}, {K: kAlloc, C: 0, Size: P}}},
+		{Name: "canon-buddy-free-through-sibling-earlier-process-holds-same-vaddr", Buddy: true, Log2Page: 12, GPUPages: []int{8}, Ops: []op{
+			{K: kInit, C: 0}, {K: kInit, C: 1}, {K: kInitPID, C: 2, From: 1},
+			{K: kAlloc, C: 0, Size: P}, {K: kAlloc, C: 1, Size: P}, {K: kAlloc, C: 2, Size: P}, {K: kAlloc, C: 0, Size: P},
+			{K: kFree, C: 2, Buf: 1}, {K: kFree, C: 1, Buf: 2}, {K: kAlloc, C: 1, Size: P}, {K: kAlloc, C: 2, Size: P},
+			{K: kFree, C: 0, Buf: 0}, {K: kFree, C: 0, Buf: 3}}},
 		{Name: "canon-buddy-migrate-free-reallocate", Buddy: true, Log2Page: 12, GPUPages: []int{16, 4, 8}, Ops: []op{
 			{K: kInit, C: 0}, {K: kAllocU, C: 0, Size: 3 * P}, {K: kAllocU, C: 0, Size: P}, // buffers 0, 1
 			{K: kMigrate, C: 0, Migs: []migPart{{Buf: 0, Page: 0, Dev: 2}, {Buf: 0, Page: 1, Dev: 2}, {Buf: 0, Page: 2, Dev: 3}}},
@@ -300,6 +328,9 @@ func runScenario(rec vlib.Recorder, sc *scenario) {
 	}
 	if sc.Mig {
 		rec.Count("histories_with_migration_peers", 1)
+	}
+	if w.sibStale > 0 {
+		rec.Count("observed|entries-of-buffers-freed-through-a-sibling-still-listed-unfreed-by-the-allocating-context", int64(w.sibStale))
 	}
 	if w.multiPgFree {
 		rec.Count("histories_with_multi_page_free", 1)
@@ -439,7 +470,8 @@ func main() {
 		Assumptions: []string{
 			"device memory ranges are known by construction: one reserved page, CPU 4 GiB, then each GPU's DRAMSize in registration order",
 			"histories stay within capacity by the monitor's own accounting, which treats pages replaced by Remap/Distribute as never returned (observed behaviour; not judged)",
-			"buffers are freed through the context that allocated them; Remap/Distribute ranges are page aligned",
+			"buffers belong to the process: FreeMemory / Remap / Distribute / migration requests go through any context of the owning process (InitWithExistingPID siblings included); " +
+				"that FreeMemory marks the buffer as freed only in the calling context's list is recorded as observed, not judged; Remap/Distribute ranges are page aligned",
 			"within capacity for ONE multi-page request (Remap, each Distribute share) onto a unified device = every member GPU could serve it alone (which member serves it is the implementation's choice); " +
 				"requests flagged 'tight' (the device has the room in total, a member has not) are issued separately and a panic there carries its own key",
 			"Distribute: entry i of the returned byte counts describes the i-th consecutive segment of the buffer, which must lie on the device entry i names; room for the whole buffer is demanded on every GPU reachable through the list",
